@@ -49,6 +49,8 @@ def uninstall() -> None:
 
 
 def _point(state: FakeState, pid: int, x0: np.ndarray) -> np.ndarray:
+    if isinstance(pid, (list, tuple)):
+        return np.array(pid, dtype=np.float64)
     if pid < 0:
         return np.array(x0, dtype=np.float64)
     return np.array(state.points[pid], dtype=np.float64)
